@@ -1,1 +1,240 @@
-// harness
+// Harnesses for src/zipcrypto.rs: C15 (PKWARE traditional encryption) and C09 (chunking).
+#[allow(unused_imports)]
+use crate::verif_kit::*;
+use std::io::Read;
+use std::io::Write;
+
+fn any_keys() -> (ZipCryptoKeys, RefPk) {
+    let k0: u32 = kani::any();
+    let k1: u32 = kani::any();
+    let k2: u32 = kani::any();
+    (
+        ZipCryptoKeys { key_0: Wrapping(k0), key_1: Wrapping(k1), key_2: Wrapping(k2) },
+        RefPk { k0, k1, k2 },
+    )
+}
+fn same(k: &ZipCryptoKeys, r: &RefPk) -> bool {
+    k.key_0.0 == r.k0 && k.key_1.0 == r.k1 && k.key_2.0 == r.k2
+}
+
+/// C15(a) one inductive step, all 2^96 key states x 2^8 bytes: decrypt_byte equals the APPNOTE
+/// 6.1 cipher written with a bitwise CRC (so the crate's 256-entry table is checked too) and
+/// leaves the same key state.
+// @h prop=C15 tier=quick t=600 mem=6
+#[kani::proof]
+fn c15_decrypt_step_matches_appnote() {
+    let (mut k, mut r) = any_keys();
+    let c: u8 = kani::any();
+    let p = k.decrypt_byte(c);
+    let pr = r.dec(c);
+    assert_eq!(p, pr);
+    assert!(same(&k, &r));
+    kani::cover!(p != c);
+}
+
+/// C15(a) encrypt_byte equals the APPNOTE cipher step; decrypt(encrypt(p)) == p from equal
+/// states and both leave equal states (by induction: every length, every password).
+// @h prop=C15 tier=quick t=600 mem=6
+#[kani::proof]
+fn c15_encrypt_step_matches_and_inverts() {
+    let (mut k, mut r) = any_keys();
+    let mut k2 = k;
+    let p: u8 = kani::any();
+    let c = k.encrypt_byte(p);
+    let cr = r.enc(p);
+    assert_eq!(c, cr);
+    assert!(same(&k, &r));
+    let back = k2.decrypt_byte(c);
+    assert_eq!(back, p);
+    assert!(same(&k2, &r));
+    kani::cover!(c != p);
+}
+
+/// C15(b) key derivation from a password of length 0..=3 equals the APPNOTE initialisation.
+// @h prop=C15 tier=quick t=600 mem=6
+#[kani::proof]
+#[kani::unwind(5)]
+fn c15_derive_matches_appnote() {
+    let pw: [u8; 3] = kani::any();
+    let n: usize = kani::any();
+    kani::assume(n <= 3);
+    let k = ZipCryptoKeys::derive(&pw[..n]);
+    let mut r = RefPk::init();
+    let mut i = 0;
+    while i < n {
+        r.update(pw[i]);
+        i += 1;
+    }
+    assert!(same(&k, &r));
+    kani::cover!(n == 0);
+    kani::cover!(n == 3);
+}
+
+/// C15(c) password validation (compositional: the per-byte step is proven equal to APPNOTE in
+/// the two step harnesses; here the oracle is 12 applications of that step): for an arbitrary
+/// key state and arbitrary 12 header bytes, the reader is accepted iff the decrypted 12th byte
+/// equals the CRC high byte (PKZIP) resp. the DOS-time high byte (Info-ZIP variant), and an
+/// accepted reader continues from the key state after the header, positioned after 12 bytes.
+// @h prop=C15 tier=quick t=600 mem=8
+#[kani::proof]
+#[kani::unwind(14)]
+fn c15_validate_check_byte() {
+    let (k, _r) = any_keys();
+    let mut o = k;
+    let hdr: [u8; 12] = kani::any();
+    let infozip: bool = kani::any();
+    let crc: u32 = kani::any();
+    let time: u16 = kani::any();
+    let src = EnvReader::<12> { data: hdr, total: 12, pos: 0, env: Env::quiet() };
+    let rd = ZipCryptoReader { file: src, keys: k };
+    let v = if infozip { ZipCryptoValidator::InfoZipMsdosTime(time) } else { ZipCryptoValidator::PkzipCrc32(crc) };
+    let mut last = 0u8;
+    let mut i = 0;
+    while i < 12 {
+        last = o.decrypt_byte(hdr[i]);
+        i += 1;
+    }
+    let want = if infozip { (time >> 8) as u8 } else { (crc >> 24) as u8 };
+    match rd.validate(v) {
+        Ok(Some(valid)) => {
+            assert_eq!(last, want);
+            assert!(valid.reader.keys.key_0 == o.key_0 && valid.reader.keys.key_1 == o.key_1 && valid.reader.keys.key_2 == o.key_2);
+            assert_eq!(valid.reader.file.pos, 12);
+            kani::cover!(infozip);
+            kani::cover!(!infozip);
+            core::mem::forget(valid);
+        }
+        Ok(None) => {
+            assert!(last != want);
+            kani::cover!(true);
+        }
+        Err(e) => {
+            core::mem::forget(e);
+            assert!(false, "validate failed on a complete header");
+        }
+    }
+}
+
+/// C15 truncated crypto header (fewer than 12 bytes available) is an error, not a panic.
+// @h prop=C15,C05 tier=quick t=600 mem=6
+#[kani::proof]
+#[kani::unwind(14)]
+fn c15_validate_short_header_errors() {
+    let (k, _r) = any_keys();
+    let hdr: [u8; 12] = kani::any();
+    let n: usize = kani::any();
+    kani::assume(n < 12);
+    let src = EnvReader::<12> { data: hdr, total: n, pos: 0, env: Env::quiet() };
+    let rd = ZipCryptoReader { file: src, keys: k };
+    let res = rd.validate(ZipCryptoValidator::PkzipCrc32(kani::any()));
+    assert!(res.is_err());
+    kani::cover!(n == 0);
+    kani::cover!(n == 11);
+    core::mem::forget(res);
+}
+
+/// C09/C15 decryption is independent of how the underlying reader splits its reads
+/// (compositional oracle = the proven per-byte step applied to the ciphertext in order): for an
+/// arbitrary key state, 3 ciphertext bytes, an arbitrary short-read schedule of the underlying
+/// reader and arbitrary caller buffer sizes (0..=3 per call, 4 calls), the concatenation of
+/// the bytes returned equals the one-shot decryption.
+// @h prop=C09,C15 tier=quick t=600 mem=8
+#[kani::proof]
+#[kani::unwind(5)]
+fn c09_zipcrypto_read_chunking() {
+    let (k, _r) = any_keys();
+    let mut o = k;
+    let ct: [u8; 3] = kani::any();
+    let sched: u64 = kani::any();
+    let src = EnvReader::<3> { data: ct, total: 3, pos: 0, env: Env::short(sched) };
+    let mut valid = ZipCryptoReaderValid { reader: ZipCryptoReader { file: src, keys: k } };
+    let want = [o.decrypt_byte(ct[0]), o.decrypt_byte(ct[1]), o.decrypt_byte(ct[2])];
+    let mut got = [0u8; 3];
+    let mut n = 0usize;
+    let mut call = 0;
+    let mut saw_short = false;
+    while call < 4 {
+        let want_len: usize = kani::any();
+        kani::assume(want_len <= 3);
+        let mut buf = [0u8; 3];
+        match valid.read(&mut buf[..want_len]) {
+            Ok(m) => {
+                assert!(m <= want_len);
+                if m < want_len && n + m < 3 {
+                    saw_short = true;
+                }
+                let mut j = 0;
+                while j < m {
+                    assert!(n < 3);
+                    got[n] = buf[j];
+                    n += 1;
+                    j += 1;
+                }
+            }
+            Err(e) => {
+                core::mem::forget(e);
+                assert!(false, "read error from a healthy source");
+            }
+        }
+        call += 1;
+    }
+    assert!(n < 1 || got[0] == want[0]);
+    assert!(n < 2 || got[1] == want[1]);
+    assert!(n < 3 || got[2] == want[2]);
+    kani::cover!(n == 3 && saw_short);
+    kani::cover!(n == 3 && !saw_short);
+    core::mem::forget(valid);
+}
+
+macro_rules! c15_writer {
+    ($name:ident, $n:expr, $split:expr) => {
+        #[kani::proof]
+        #[kani::unwind(17)]
+        fn $name() {
+            const N: usize = $n;
+            const SPLIT: usize = $split;
+            let (k, _r) = any_keys();
+            let mut o = k;
+            let hdr: [u8; 12] = kani::any();
+            let content: [u8; 3] = kani::any();
+            let crc: u32 = kani::any();
+            let mut w = ZipCryptoWriter { writer: Sink::<16>::new(), buffer: vec![], keys: k };
+            w.write_all(&hdr).unwrap();
+            w.write_all(&content[..SPLIT]).unwrap();
+            w.write_all(&content[SPLIT..N]).unwrap();
+            let sink = match w.finish(crc) {
+                Ok(s) => s,
+                Err(e) => {
+                    core::mem::forget(e);
+                    assert!(false, "finish failed on a healthy sink");
+                    return;
+                }
+            };
+            assert_eq!(sink.end, 12 + N);
+            assert!(!sink.overflow);
+            let mut i = 0;
+            while i < 12 + N {
+                let plain = if i < 11 {
+                    hdr[i]
+                } else if i == 11 {
+                    (crc >> 24) as u8
+                } else {
+                    content[i - 12]
+                };
+                let c = o.encrypt_byte(plain);
+                assert_eq!(sink.buf[i], c);
+                i += 1;
+            }
+            kani::cover!(sink.buf[11] != (crc >> 24) as u8);
+        }
+    };
+}
+/// C15(d) the buffering writer (compositional oracle = proven encrypt step): what reaches the
+/// sink on finish(crc) is exactly the encryption, in order, of the 12-byte header whose last
+/// byte is replaced by the CRC high byte, followed by the content; arbitrary key state, header
+/// bytes, content bytes and CRC. Variant: empty content.
+// @h prop=C15 tier=quick t=600 mem=8 name=c15_writer_ciphertext_n0
+c15_writer!(c15_writer_ciphertext_n0, 0, 0);
+/// C15(d) as above with 3 content bytes written in two calls (1 + 2).
+// @h prop=C15 tier=quick t=600 mem=8 name=c15_writer_ciphertext_n3
+c15_writer!(c15_writer_ciphertext_n3, 3, 1);
